@@ -204,8 +204,11 @@ def generate(name, prop, c, simulate=None, timeout=1500):
 
 
 def run(prop, tier, families, own_invariants, reread=False, assumptions=None, quick_cap=1500, thorough_cap=12000,
-        tail_steps=None, knob_list=None):
+        tail_steps=None, knob_list=None, replay=None):
     """families: list of dicts(name, ids, vals, maxv, maxops(quick), maxops_thorough, stable(list), opkinds)"""
+    if replay:
+        from checks import query_common
+        return query_common.replay(prop, replay, own_invariants)
     t0 = time.time()
     rnd = random.Random(vlib.seed())
     out = vlib.Outcome(prop)
